@@ -29,11 +29,9 @@ def check_closure_idioms(ctx, extra_roots=()):
                          check_narrowing_cast, check_inplace_float_store,
                          check_truthy_position, check_jump_in_finally,
                          check_partially_empty_return,
-                     check_sentinel_codes_gather,
-                     check_falsy_numeric_default,
                          check_sentinel_codes_gather,
-                     check_falsy_numeric_default,
                          check_falsy_numeric_default,
+                         check_span_contiguity,
                          check_returns_depend_alike)
     from .h5names import check_h5_names_created_once
     from .scatter import (check_pointer_scatter,
@@ -41,19 +39,19 @@ def check_closure_idioms(ctx, extra_roots=()):
     from .tiling import (check_tiling, check_whole_axis,
                          check_window_writes, check_buffer_windows,
                          check_store_advances, check_batch_search,
-                     check_copy_not_filtered_by_content,
-                     check_extent_follows_array,
                          check_copy_not_filtered_by_content,
-                     check_extent_follows_array,
                          check_extent_follows_array)
     from .perm import (check_request_order, check_unsort_pairs,
-                       check_sorted_results_unsorted)
-    from .nodekeys import check_memo_keys
+                       check_sorted_results_unsorted,
+                       check_parallel_windows_in_step)
+    from .nodekeys import check_memo_keys, check_memo_of_outside_state
     from .capacity import (check_index_dtype, check_borrowed_dtype,
                            check_sum_capacity, check_bound_kind,
                            check_index_arithmetic_widened,
                            check_index_cast_to_input_dtype)
     from . import cursors as CU
+    from .order import check_pairs_plainly_oriented
+    from .forwarding import check_keywords_not_crossed
     db = ctx.db
     seeds = [q for q in sorted(ctx.functions_analysed)
              if q in db.functions] + [q for q in extra_roots
@@ -77,13 +75,17 @@ def check_closure_idioms(ctx, extra_roots=()):
                      check_partially_empty_return,
                      check_sentinel_codes_gather,
                      check_falsy_numeric_default,
+                     check_span_contiguity,
                      check_truthy_position, check_jump_in_finally,
                      check_narrowing_cast, check_inplace_float_store,
                      check_h5_names_created_once, check_pointer_scatter,
                      check_pointer_window_rebased,
                      check_whole_axis, check_request_order,
                      check_unsort_pairs, check_sorted_results_unsorted,
-                     check_memo_keys, check_index_dtype, check_borrowed_dtype,
+                     check_parallel_windows_in_step,
+                     check_memo_keys, check_memo_of_outside_state,
+                     check_keywords_not_crossed,
+                     check_pairs_plainly_oriented, check_index_dtype, check_borrowed_dtype,
                      check_sum_capacity, check_bound_kind,
                      check_index_arithmetic_widened,
                      check_index_cast_to_input_dtype, check_tiling,
@@ -93,6 +95,27 @@ def check_closure_idioms(ctx, extra_roots=()):
                      check_extent_follows_array,
                      CU.check_cursors,
                      CU.check_advance):
+            try:
+                rule(ctx, fi)
+            except AnalysisError:
+                continue
+    # the small helpers the anchored code calls directly to turn a request
+    # into read windows (utils.utils and the like) are part of how the
+    # anchored function computes its answer: the value-shape rules that
+    # need no context judge them too
+    inside = set(closure)
+    helpers = set()
+    for q in closure:
+        for t in ctx.cg.edges.get(q, ()):
+            f = db.functions.get(t)
+            if f is not None and t not in inside \
+                    and f.module.short == 'utils.utils':
+                helpers.add(t)
+    for q in sorted(helpers):
+        fi = db.functions[q]
+        for rule in (check_span_contiguity, check_request_order,
+                     check_unsort_pairs, check_sorted_results_unsorted,
+                     check_truthy_position, check_partially_empty_return):
             try:
                 rule(ctx, fi)
             except AnalysisError:
